@@ -3897,7 +3897,10 @@ func (p *Parser) parseChangeStreamFor() ast.ChangeStreamFor {
 
 		if p.Token.Kind == "(" {
 			p.nextToken()
-			forTable.Columns = parseCommaSeparatedList(p, p.parseIdent)
+			// An empty column list is allowed: only the primary key columns are tracked.
+			if p.Token.Kind != ")" {
+				forTable.Columns = parseCommaSeparatedList(p, p.parseIdent)
+			}
 			forTable.Rparen = p.expect(")").Pos
 		}
 
